@@ -2,6 +2,7 @@ package txcache
 
 import (
 	"bytes"
+	"math"
 	"math/big"
 
 	"github.com/multiversx/mx-chain-core-go/data"
@@ -33,7 +34,12 @@ func (wrappedTx *WrappedTransaction) precomputeFields(host MempoolHost) {
 
 	gasLimit := wrappedTx.Tx.GetGasLimit()
 	if gasLimit != 0 {
-		wrappedTx.PricePerUnit = wrappedTx.Fee.Uint64() / gasLimit
+		ppu := new(big.Int).Div(wrappedTx.Fee, new(big.Int).SetUint64(gasLimit))
+		if ppu.IsUint64() {
+			wrappedTx.PricePerUnit = ppu.Uint64()
+		} else {
+			wrappedTx.PricePerUnit = math.MaxUint64
+		}
 	}
 
 	wrappedTx.TransferredValue = host.GetTransferredValue(wrappedTx.Tx)
